@@ -795,7 +795,7 @@ func scriptsCollectedBeforeAttributes(c *Ctx, rule string) {
 			want := types.ExprString(arg)
 			ok := false
 			for _, col := range collects {
-				if ci < len(col.Args) && types.ExprString(col.Args[ci]) == want && fc.dominates(col, em) {
+				if ci < len(col.Args) && types.ExprString(col.Args[ci]) == want && fc.happensBefore(col, em) {
 					ok = true
 				}
 			}
